@@ -273,6 +273,14 @@ class Recognizer(IRecognizer):
                     # try exact match first, dashes if that doesn't match
                     for name in [attr_name, attr_name.replace('_', '-')]:
                         if cnode.has_attribute(name):
+                            if len([
+                                    kn for kn, _ in node.value
+                                    if kn.value == name]) > 1:
+                                message = (
+                                        '{}Found more than one key "{}",'
+                                        ' keys must be unique.').format(
+                                                loc_str, name)
+                                return set(), (message, [])
                             subnode = cnode.get_attribute(name)
                             recognized_types, result = self.recognize(
                                 subnode.yaml_node, type_)
